@@ -37,6 +37,7 @@ var runners = map[string]runner{
 	}},
 	"C11": {"model_checking", conc.RunC11},
 	"C09": {"model_checking", streams.RunC09},
+	"C10": {"fault_enumeration", streams.RunC10},
 	"C06": {"model_checking", sesshist.RunC06},
 }
 
